@@ -82,6 +82,25 @@ CLAIMED = {
         "is validated by TraceDM.tla; the quick tier requires all 24 sizes to have been decoded.",
    note=COMMON_NOTE + " 144x144 check-word interleaving follows the ISO reference encoder.",
    technique="TLA+ model checking of the placement algorithm and encodation automaton + trace validation with a TLA+ reference reader (TLC)", ref="5/C02"),
+ "C03": dict(
+   text="Aztec.tla is a complete reference reader: bullseye, orientation marks, Reed-Solomon-valid mode message that must agree with the symbol size, complete reference "
+        "grid, the layer spiral, RS over GF(64)/(256)/(1024)/(4096), no all-zero/all-one words, un-stuffing, and the Upper/Lower/Mixed/Punct/Digit/binary-shift automaton. "
+        "TLC checks for all 36 sizes that the spiral visits exactly the non-function modules once, that a table-driven encoder model is inverted by the automaton for all "
+        "strings up to length 3 over representative bytes and binary runs around the 31/62 boundaries, and the layer-selection rule. Every image returned by the real "
+        "encoder (empty payload, every byte value, all class pairs/triples, punctuation pairs, binary runs, every size through explicit layer requests, random) is "
+        "validated by TraceAztec.tla: decoded bytes = payload and explicit layer requests honoured exactly.",
+   note=COMMON_NOTE + " A trailing all-ones pseudo binary shift shorter than one word is treated as stuffing padding, as readers do.",
+   technique="TLA+ model checking of geometry and decoding automaton + trace validation with a TLA+ reference reader (TLC)", ref="5/C03"),
+ "C04": dict(
+   text="PDF417.tla is a complete reference reader: start/stop patterns, cluster (row mod 3) pattern tables, left/right row indicators (row number, row count, column count, "
+        "security level), length descriptor, Reed-Solomon over GF(929), and the compaction automaton (text with four sub-modes, latches, shifts, pad rule; byte 901/924; "
+        "numeric 902 with big-number conversion done on digit arrays; 913 shift). TLC checks the structural laws of all 2787 pinned patterns, that 3 generates GF(929)*, the "
+        "conversion rules and the dimension obligations. Every image returned by the real encoder (all byte values alone and inside text, all class pairs/triples in odd and "
+        "even lengths followed by a shifted byte, digit runs around 13/44, byte runs of every length mod 6, shapes over all nine levels, capacity boundary, random) is "
+        "validated by TracePDF.tla: decoded bytes = data.",
+   note=COMMON_NOTE + " The 3 x 929 bar patterns are pinned from the tree at the start of the task (tools/genpdftable.py) and admitted after TLC checked every structural law; "
+        "an error already present there that respects all laws would not be noticed.",
+   technique="TLA+ model checking of table laws and conversions + trace validation with a TLA+ reference reader (TLC)", ref="5/C04"),
 }
 
 NOT_YET = "check not built yet in this revision (planned per DESIGN.md section 10); not claimed"
